@@ -332,7 +332,7 @@ TRIPLE_CLASSES = ["random", "random", "random", "del_vs_edit", "del_vs_edit", "i
                   "minor_diff", "retype", "empty_source", "both_append_outputs", "exec_count", "fixture",
                   "nbmeta_conflict", "out_meta_conflict", "multi_line_meta", "del_vs_transient", "del_vs_transient",
                   "both_insert_lists", "nul_in_source", "same_insert_edit_below", "transient_meta_conflict",
-                  "del_vs_output_edit", "large_outputs", "long_notebook", "wide_metadata"]
+                  "del_vs_output_edit", "large_outputs", "long_notebook", "wide_metadata", "both_rerun", "both_rerun", "same_size_sides"]
 
 
 def merge_triple(gen, cls=None, minor=None, plain_eol=False):
@@ -433,14 +433,21 @@ def merge_triple(gen, cls=None, minor=None, plain_eol=False):
         # counterpart on the remote side, and the remote side may have extra items (unequal lengths, offsets)
         pos = r.randrange(len(base["cells"]) + 1)
         litems, ritems = [], []
-        for j in range(r.choice([1, 2, 2, 3, 4])):
-            c1 = gen.cell(m, r.choice(["code", "markdown"]))
-            c1["source"] = "\n".join(gen.line(CODE_LINES) + " %d" % r.randrange(1000) for _ in range(4)) + "\n"
+        def fresh_cell():
+            c_ = gen.cell(m, r.choice(["code", "markdown"]))
+            c_["source"] = "\n".join(gen.line(CODE_LINES) + " %d" % r.randrange(1000) for _ in range(4)) + "\n"
+            return c_
+        for j in range(r.choice([1, 2, 2, 3, 4, 5])):
+            c1 = fresh_cell()
             cc = r.random()
-            if cc < 0.3:
-                litems.append(c1)                      # local only
+            if cc < 0.25:
+                litems.append(c1)                      # local only (sometimes a run of 2-3)
+                for _ in range(r.choice([0, 0, 1, 2])):
+                    litems.append(fresh_cell())
             elif cc < 0.45:
-                ritems.append(c1)                      # remote only
+                ritems.append(c1)                      # remote only (sometimes a run of 2-3)
+                for _ in range(r.choice([0, 0, 1, 2])):
+                    ritems.append(fresh_cell())
             elif cc < 0.6:
                 litems.append(c1)
                 c2 = copy.deepcopy(c1)
@@ -606,6 +613,60 @@ def merge_triple(gen, cls=None, minor=None, plain_eol=False):
                 elif key in st:
                     st[key]["state"]["description"] += " (%s)" % side
         info = {"n": n, "edits": rec}
+    elif cls == "both_rerun":
+        # the everyday case: both branches re-ran a cell - execution counts differ on the cell and on its
+        # execute_result, and one or more of the (2-4) outputs changed a little on both sides
+        ec = r.randrange(1, 20)
+        outs = [{"output_type": "execute_result", "execution_count": ec, "metadata": {}, "data": {"text/plain": "%d" % r.randrange(99)}},
+                {"output_type": "stream", "name": "stdout", "text": "line one\nline two\nline three\n"}]
+        if r.random() < 0.5:
+            outs.append(gen.output(r.choice(["display_data", "error", "stream"]), ec=ec))
+        if r.random() < 0.3:
+            outs.append({"output_type": "display_data", "metadata": {}, "data": {"text/plain": "<Figure>", "image/png": b64(r, 80)}})
+        r.shuffle(outs)
+        c = _code_cell(gen, m, "result = compute()\nresult\n", outs)
+        c["execution_count"] = ec
+        pos = r.randrange(len(base["cells"]) + 1)
+        for nb in (base, loc, rem):
+            nb["cells"].insert(pos, copy.deepcopy(c))
+        rec = []
+        for side, nb, bump in (("L", loc, r.choice([1, 2])), ("R", rem, r.choice([1, 3, 3, 0]))):
+            cc = nb["cells"][pos]
+            if bump:
+                cc["execution_count"] = ec + bump
+                for o in cc["outputs"]:
+                    if o["output_type"] == "execute_result":
+                        o["execution_count"] = ec + bump
+            for _ in range(r.choice([0, 1, 1, 2])):
+                o = r.choice(cc["outputs"])
+                what = o["output_type"]
+                rec.append((side, what))
+                if what == "stream":
+                    o["text"] = o["text"].replace("two", "two %s" % side, 1) if r.random() < 0.7 else o["text"] + "more from %s\n" % side
+                elif what == "error":
+                    o["evalue"] += " (%s)" % side
+                elif "text/plain" in o.get("data", {}):
+                    o["data"]["text/plain"] += r.choice(["", " "]) + side
+                else:
+                    o.setdefault("metadata", {})["run_by"] = side
+        info = {"pos": pos, "edits": rec}
+    elif cls == "same_size_sides":
+        # local and remote differ from base and from each other in single characters only: the three files have the
+        # same byte size (and, written back to back by git, the same time stamp)
+        c = gen.cell(m, "code")
+        c["source"] = "a = 1\nb = 1\nc = 1\nprint(a + b + c)\n"
+        c["outputs"] = []
+        c["execution_count"] = None
+        pos = r.randrange(len(base["cells"]) + 1)
+        for nb in (base, loc, rem):
+            nb["cells"].insert(pos, copy.deepcopy(c))
+        mode = r.choice(["disjoint", "disjoint", "same_line", "one_sided"])
+        loc["cells"][pos]["source"] = c["source"].replace("a = 1", "a = %d" % r.choice([2, 3]))
+        if mode == "disjoint":
+            rem["cells"][pos]["source"] = c["source"].replace("b = 1", "b = %d" % r.choice([2, 3]))
+        elif mode == "same_line":
+            rem["cells"][pos]["source"] = c["source"].replace("a = 1", "a = %d" % r.choice([4, 5]))
+        info = {"pos": pos, "mode": mode}
     elif cls == "nul_in_source":
         # a NUL character inside a source (valid JSON, valid notebook): external text tools treat the text as binary
         lines = ["line one of %d" % r.randrange(99), "binary \x00 payload pasted here", "line three", "line four"]
